@@ -119,4 +119,18 @@ theorem C04_decimal_functional (d : Codec.Dec) (k k' : Int)
     (h : Codec.decIsKey d k = true) (h' : Codec.decIsKey d k' = true) : k = k' :=
   Codec.decIsKey_functional' d k k' h h'
 
+/-- THE ENTRY COMPARISON OF `simg` IS EXACT: within one cast (the type of the index), a JSON value
+    read from schema.json stands for at most one model value — integers by injectivity of the
+    decimal rendering (`Int.repr_injective`, `Nat.repr_injective`), floats by
+    `C04_decimal_functional`, strings by byte equality.  So `Codec.checkEntries` cannot accept a
+    file whose entry differs from the model's in value. -/
+theorem C04_schema_value_exact (j : Json.J) (v w : Val) (ht : Codec.Val.tag v = Codec.Val.tag w)
+    (h : Codec.valueIs j v = true) (h' : Codec.valueIs j w = true) : v = w :=
+  Codec.valueIs_functional j v w ht h h'
+
+/-- … and a JSON string never stands for a number nor a JSON number for a string -/
+theorem C04_schema_value_kind (j : Json.J) (v : Val) (h : Codec.valueIs j v = true) :
+    (∃ b, j = .str b ∧ ∃ s, v = .str s) ∨ (∃ l, j = .num l ∧ ∀ s, v ≠ .str s) :=
+  Codec.valueIs_kind j v h
+
 end Sod.Props
